@@ -94,12 +94,16 @@ def remove_namespace(c, ns):
 
 def path_of(o):
     import pywbem
+    if isinstance(o, tuple):        # class-level Associators/References: (CIMClassName, CIMClass)
+        return o[0]
     return o.path if isinstance(o, pywbem.CIMInstance) else o
 
 
 def no_host(o):
     """copy of a result object with the host of its path removed (the property compares modulo host)"""
     import pywbem
+    if isinstance(o, tuple):
+        return (no_host(o[0]), o[1])
     c = o.copy()
     if isinstance(c, pywbem.CIMInstance):
         if c.path is not None:
@@ -131,6 +135,12 @@ def max_invalid(ev):
     if m is None or m <= 0:
         return 'ValueError'
     return None
+
+
+def type_bad(ev):
+    """ContinueOnError that is not a bool, FilterQuery / FilterQueryLanguage that is not a string"""
+    return ev['coe'] == 'x' or (ev['fam'] != 6 and ev.get('ftype') is not None) or \
+        (FAMS[ev['fam']][5] and bool(ev.get('srcclass')))
 
 
 def rejected_by_fallback(ev):
@@ -230,6 +240,10 @@ class Real:
         if fam == 6:
             args = (LANGS[ev['lang']], 'SELECT * FROM TST_P')
             kw = {'namespace': ns}
+        elif FAMS[fam][5] and ev.get('srcclass'):
+            # class-level request: accepted by the traditional operations only
+            args = (pywbem.CIMClassName('TST_P', namespace=ns),)
+            kw = {}
         elif FAMS[fam][5]:
             args = (pywbem.CIMInstanceName('TST_P', keybindings={'name': ev['src']}, namespace=ns),)
             kw = extra
@@ -242,24 +256,29 @@ class Real:
             kw = dict(extra, namespace=ns)
         if for_trad:
             return args, kw
+        if ev.get('tradonly'):
+            kw[ev['tradonly']] = True       # documented: ignored by the pull path, passed on by the fallback
         kw['MaxObjectCount'] = int_arg(ev['max'])
         if ev['timeout'] is not None:
             kw['OperationTimeout'] = int_arg(ev['timeout'])
         if fam != 6:
             if ev['lang'] != 0:
-                kw['FilterQueryLanguage'] = LANGS[ev['lang']]
+                kw['FilterQueryLanguage'] = 5 if ev.get('ftype') == 'lang' else LANGS[ev['lang']]
             if ev['query']:
-                kw['FilterQuery'] = 'name = "p0"'
+                kw['FilterQuery'] = 5 if ev.get('ftype') == 'query' else 'name = "p0"'
         elif ev['rqrc'] is not None:
             kw['ReturnQueryResultClass'] = ev['rqrc']
         if ev['coe'] is not None:
-            kw['ContinueOnError'] = ev['coe']
+            kw['ContinueOnError'] = 5 if ev['coe'] == 'x' else ev['coe']
         return args, kw
 
-    def traditional(self, conn, ev):
-        """(error status or None, result list) of the equivalent traditional operation"""
+    def traditional(self, conn, ev, trad_only=False):
+        """(error status or None, result list) of the equivalent traditional operation; `trad_only`: with the
+        argument only the traditional operation knows (LocalOnly / IncludeQualifiers), as the fallback passes it"""
         import pywbem
         args, kw = self.call_args(ev, True)
+        if trad_only:
+            kw[ev['tradonly']] = True
         try:
             r = getattr(conn, FAMS[ev['fam']][3])(*args, **kw)
             return None, list(r)
@@ -286,14 +305,21 @@ class Real:
     def same_object(self, got, want):
         return no_host(got) == no_host(want)
 
+    @staticmethod
+    def expected_of(m):
+        """the equivalent traditional result: for the fallback it includes the traditional-only argument"""
+        if m['route'] == 'fallback' and m.get('expected_fb') is not None and len(m['expected_fb']) == len(m['expected']):
+            return m['expected_fb']
+        return m['expected']
+
     def check_yield(self, m, o):
         fam = m['ev']['fam']
         sig = {'fam': fam, 'route': m['route']}
         if m['terr'] is not None or m['y'] >= len(m['expected']):
             self.violate(dict(sig, kind='yields_more_than_traditional'), {'position': m['y']})
-        elif not self.same_object(o, m['expected'][m['y']]):
+        elif not self.same_object(o, self.expected_of(m)[m['y']]):
             self.violate(dict(sig, kind='object_differs_from_traditional'),
-                         {'position': m['y'], 'got': repr(o)[:300], 'want': repr(m['expected'][m['y']])[:300]})
+                         {'position': m['y'], 'got': repr(o)[:300], 'want': repr(self.expected_of(m)[m['y']])[:300]})
         p = path_of(o)
         if p is None or p.namespace is None:
             self.violate(dict(sig, kind='path_without_namespace'), {'position': m['y']})
@@ -349,6 +375,10 @@ class Real:
             ok = ok or (code == 14 and pull_route and not disabled and ev['lang'] == 2)
             if not ok:
                 self.violate(sig, {'flag_before': before, 'disabled': disabled, 'traditional_status': m['terr']})
+        elif name == 'TypeError':
+            # a pull-only argument of the wrong type: the client part of Open...() refuses it (pull path only)
+            if not (type_bad(ev) and before in (None, True)):
+                self.violate(sig, {'flag_before': before, 'disabled': disabled})
         elif name == 'ValueError':
             fallback_legit = before is False or (before is None and (disabled or m['terr'] in (1, 7)))
             if not (rejected_by_fallback(ev) and fallback_legit):
@@ -391,17 +421,20 @@ class Real:
         if kind == 'call':
             self.quiet = True
             terr, expected = self.traditional(self.conn, ev)
+            expected_fb = self.traditional(self.conn, ev, True)[1] if ev.get('tradonly') and terr is None else None
             self.quiet = False
             j = self.ng
             self.ng += 1
             fam = ev['fam']
             m = {'ev': ev, 'terr': terr, 'expected': expected, 'y': 0, 'state': 'new', 'ctx': set(), 'route': None,
-                 'flag_before': None}
+                 'flag_before': None, 'expected_fb': expected_fb}
             self.meta[j] = m
             self.model_ev = {'ev': 'call', 'fam': fam, 'ns': ev['ns'], 'terr': terr,
                              'objs': [self.code(o) for o in expected], 'max': ev['max'], 'timeout': ev['timeout'],
                              'lang': ev['lang'], 'query': bool(ev['query']) or fam == 6, 'coe': ev['coe'] is not None,
-                             'rqrc': ev['rqrc'] is not None}
+                             'rqrc': ev['rqrc'] is not None, 'coetype': ev['coe'] == 'x',
+                             'filtertype': fam != 6 and ev.get('ftype') is not None,
+                             'srcclass': FAMS[fam][5] and bool(ev.get('srcclass'))}
             args, kw = self.call_args(ev, False)
             if fam == 6:
                 m['flag_before'] = getattr(self.conn, FAMS[fam][4])
@@ -446,7 +479,7 @@ class Real:
                 # CIM_ERR_INVALID_NAMESPACE (ExecQuery is refused before the mock looks at the namespace)
                 for m in self.meta.values():
                     if m['state'] == 'new' and m['ev']['ns'] == ev['ns'] and m['ev']['fam'] != 6:
-                        m['terr'], m['expected'] = 3, []
+                        m['terr'], m['expected'], m['expected_fb'] = 3, [], None
             return {'ok': None}, self.conv_log()
         j = ev['g']
         m = self.meta[j]
@@ -574,6 +607,10 @@ def gen_call(rng, n, style):
     ev = {'ev': 'call', 'fam': fam, 'ns': rng.choice([0] * 10 + [1, 2]),
           'cls': rng.choice(['TST_P'] * 8 + ['TST_Q', 'TST_X']), 'src': rng.choice(['p0'] * 6 + ['p1', 'zz']),
           'extra': rng.randrange(20), 'lang': 0, 'query': False, 'coe': None, 'rqrc': None, 'timeout': None}
+    if fam in (2, 3, 4, 5) and rng.random() < 0.08:
+        ev['srcclass'] = True
+    if fam in (0, 2) and rng.random() < 0.15:
+        ev['tradonly'] = rng.choice(['LocalOnly', 'IncludeQualifiers'] if fam == 0 else ['IncludeQualifiers'])
     if fam in (0, 1) and rng.random() < 0.3:
         ev['clsobj'] = True
         ev['ns'] = rng.choice([0, 1, 1, 1, 2])
@@ -592,7 +629,13 @@ def gen_call(rng, n, style):
             ev['lang'], ev['query'] = rng.choice([(1, True), (1, True), (1, False), (0, True), (2, True)])
     r = rng.random()
     if r < 0.2 or (style == 'args' and r < 0.6):
-        ev['coe'] = rng.choice([False, True])
+        ev['coe'] = rng.choice([False, True, False, True, 'x'] if style in ('args', 'nearmiss') else [False, True])
+    if fam != 6 and style in ('args', 'nearmiss') and rng.random() < 0.12:
+        ev['ftype'] = rng.choice(['query', 'lang'])
+        if ev['ftype'] == 'query':
+            ev['query'] = True
+        else:
+            ev['lang'] = 2
     return ev
 
 
@@ -770,7 +813,7 @@ RULE = ('seeded random histories on one real FakedWBEMConnection: use_pull_opera
         'initially enabled/disabled and toggled between events; 3..14 blocks of: Iter call (7 families, namespaces '
         'existing/other/missing, classes/source instances existing or not, MaxObjectCount 1..n+1,100 and a near-miss stream '
         '0,-1,None,non-int,10^6; OperationTimeout None,0,10,40,41,60,-1,non-int; FilterQueryLanguage/FilterQuery/'
-        'ContinueOnError/ReturnQueryResultClass combinations; extra arguments shared with the traditional operation), '
+        'ContinueOnError/ReturnQueryResultClass combinations incl. wrongly typed ContinueOnError/FilterQuery/FilterQueryLanguage; extra arguments shared with the traditional operation), '
         'bursts of next(), close(), drop + gc.collect(), throw(OSError | CIMError 7/1/4), removal of the second namespace '
         'under running enumerations, ClassName as CIMClassName carrying the namespace, several generators alive at '
         'once, final drops; repository sizes 0..8 (thorough ..34). Compared per event: result, the 7 flags, the '
@@ -784,7 +827,7 @@ ASSUMPTIONS = ['uuid4 context ids never repeat (model: counter)',
 
 def run(run):
     rng = run.rng
-    n = 14000 if run.thorough else 2600
+    n = 12000 if run.thorough else 2200
     run.rule = RULE
     run.assumptions += ASSUMPTIONS
     cases = [gen_case(rng, run.thorough) for _ in range(n)] + directed_cases()
@@ -903,6 +946,33 @@ def directed_cases():
                 call = dict(base, fam=fam, ns=1)
                 evs = [dict(call), {'ev': 'rmns', 'ns': 1}] + nx(0, 2) + [dict(call)] + nx(1)
                 out.append({'use': use, 'disabled': disabled, 'n': 3, 'events': evs, 'style': 'directed'})
+    # pull-only arguments of the wrong Python type: TypeError on the pull path (nothing sent, nothing learned),
+    # ValueError with the traditional fallback
+    for fam in range(7):
+        variants = [{'coe': 'x'}]
+        if fam != 6:
+            variants += [{'ftype': 'query', 'query': True}, {'ftype': 'lang', 'lang': 2}, {'ftype': 'query', 'query': True, 'lang': 1}]
+        for v in variants:
+            for use in (None, True, False):
+                for disabled in (False, True):
+                    call = dict(base, fam=fam, lang=1 if fam == 6 else 0)
+                    evs = [dict(call, **v)] + (nx(0, 2) if fam != 6 else []) + [dict(call)] + (nx(1, 4) if fam != 6 else [])
+                    out.append({'use': use, 'disabled': disabled, 'n': 3, 'events': evs, 'style': 'directed'})
+    # arguments only the traditional operation knows: ignored by the pull path, honoured by the fallback
+    for fam, names in ((0, ('LocalOnly', 'IncludeQualifiers')), (2, ('IncludeQualifiers',))):
+        for name in names:
+            for use in (None, True, False):
+                for disabled in (False, True):
+                    call = dict(base, fam=fam, tradonly=name, cls='TST_P')
+                    out.append({'use': use, 'disabled': disabled, 'n': 5, 'events': [call] + nx(0, 7), 'style': 'directed'})
+    # class-level Associators/References: TypeError on the pull path, the class-level traditional result on the fallback
+    for fam in (2, 3, 4, 5):
+        for use in (None, True, False):
+            for disabled in (False, True):
+                for ns in (0, 1):
+                    call = dict(base, fam=fam, ns=ns, srcclass=True)
+                    evs = [call] + nx(0, 4) + [dict(base, fam=fam, ns=ns)] + nx(1, 3)
+                    out.append({'use': use, 'disabled': disabled, 'n': 3, 'events': evs, 'style': 'directed'})
     # the class given as CIMClassName carrying the namespace (namespace=None)
     for fam in (0, 1):
         for use in (None, True, False):
